@@ -311,9 +311,15 @@ class TrackedList(TrackedValue, list):
         list.__init__(self, (self.make(obj, attr, val) for val in value))
     def __reduce__(self):
         return list, (list(self),)
-    __setitem__ = tracked_method(list.__setitem__)
+    _setitem = tracked_method(list.__setitem__)
+    def __setitem__(self, index, item):
+        if isinstance(index, slice) and not isinstance(item, list): item = list(item)  # to wrap items of any iterable
+        return self._setitem(index, item)
     __delitem__ = tracked_method(list.__delitem__)
-    extend = tracked_method(list.extend)
+    _extend = tracked_method(list.extend)
+    def extend(self, items):
+        if not isinstance(items, list): items = list(items)  # to wrap items of any iterable
+        return self._extend(items)
     append = tracked_method(list.append)
     pop = tracked_method(list.pop)
     remove = tracked_method(list.remove)
